@@ -9,9 +9,23 @@ git apply "$patch" || { echo "patch does not apply"; exit 2; }
 trap 'git -C /repo checkout -- . ; git -C /repo clean -fdq -- internal net client acp crypto event node 2>/dev/null' EXIT
 cd /verif
 # evidence and replay files written by a run on the changed tree must not stay: keep the ones of the clean tree
+# (only the files of the properties run here are touched: other checks may be running at the same time)
 bak=$(mktemp -d /verif/work/mutant-bak.XXXX)
-cp -a /verif/evidence "$bak/evidence"; cp -a /verif/replays "$bak/replays"
-trap 'git -C /repo checkout -- . ; git -C /repo clean -fdq -- internal net client acp crypto event node 2>/dev/null; rm -rf /verif/evidence /verif/replays; mv "$bak/evidence" /verif/evidence; mv "$bak/replays" /verif/replays; rmdir "$bak"' EXIT
+mkdir -p "$bak/evidence" "$bak/replays"
+for p in "$@"; do
+  cp -a /verif/evidence/$p.json "$bak/evidence/" 2>/dev/null
+  cp -a /verif/replays/$p-*.json "$bak/replays/" 2>/dev/null
+done
+restore() {
+  git -C /repo checkout -- . ; git -C /repo clean -fdq -- internal net client acp crypto event node 2>/dev/null
+  for p in "$@"; do
+    rm -f /verif/replays/$p-*.json
+    cp -a "$bak"/replays/$p-*.json /verif/replays/ 2>/dev/null
+    cp -a "$bak/evidence/$p.json" /verif/evidence/ 2>/dev/null
+  done
+  rm -rf "$bak"
+}
+trap 'restore "$@"' EXIT
 for p in "$@"; do
   out=$(VERIF_SEED=${VERIF_SEED:-1} ./check "$p" --tier quick 2>&1); rc=$?
   case $rc in
